@@ -200,7 +200,7 @@ def parseSeed (q : Question) (s : String) : Option (CacheKey × List Rec) := do
     pure (⟨n, t, scope⟩, recs)
   | _ => none
 
-/-- answer entry `<depth>.<up>=<resp>`; resp = `F` | `<r|q><s|e>/<E|U|N>/<recs>` -/
+/-- answer entry `<depth>.<up>=<resp>`; resp = `F` | `<r|q><s|e>/<E|U|N|D>/<recs>` -/
 def parseAns (q? : Option Question) (s : String) : Option ((Nat × UpRef) × Option Resp) := do
   match s.splitOn "=" with
   | [k, v] =>
@@ -218,6 +218,7 @@ def parseAns (q? : Option Question) (s : String) : Option ((Nat × UpRef) × Opt
             | "E" => some q?
             | "U" => some (q?.map fun q => { q with name := upperStr q.name })
             | "N" => some none
+            | "D" => some (q?.map fun q => { q with name := "evil.test.".toList })
             | _ => none
           pure ((d, u), some ⟨isR, rq, recs, ok⟩)
         | _ => none
